@@ -301,9 +301,41 @@ func (fc *FnCtx) oblige(s *State, name, kind string, props []string, text string
 			Goal: goal, Result: "unsat", Solver: "trivial", PathID: fc.npaths})
 		return
 	}
-	o := &Obligation{frames: fc.frames, Func: fc.key, Name: name, Kind: kind, Props: props, Text: text, Where: where,
-		Hyps: s.pc[:len(s.pc):len(s.pc)], Goal: goal, Trace: s.trace[:len(s.trace):len(s.trace)], PathID: fc.npaths, Entry: fc.entryInfo}
-	fc.obls = append(fc.obls, o)
+	// a conjunctive goal is discharged conjunct by conjunct (the negation of a conjunction is a
+	// disjunction the solvers handle much worse); all parts keep the obligation's name
+	for _, g := range splitConj(goal, 12) {
+		o := &Obligation{frames: fc.frames, Func: fc.key, Name: name, Kind: kind, Props: props, Text: text, Where: where,
+			Hyps: s.pc[:len(s.pc):len(s.pc)], Goal: g, Trace: s.trace[:len(s.trace):len(s.trace)], PathID: fc.npaths, Entry: fc.entryInfo}
+		fc.obls = append(fc.obls, o)
+	}
+}
+
+// splitConj returns the conjuncts of g (through implications: A => (B and C) gives A => B,
+// A => C), or g itself if there are too many.
+func splitConj(g *Term, max int) []*Term {
+	var out []*Term
+	var rec func(ante []*Term, t *Term)
+	rec = func(ante []*Term, t *Term) {
+		switch {
+		case t.Op == "and":
+			for _, a := range t.Args {
+				rec(ante, a)
+			}
+		case t.Op == "=>" && len(t.Args) == 2:
+			rec(append(ante[:len(ante):len(ante)], t.Args[0]), t.Args[1])
+		default:
+			r := t
+			for i := len(ante) - 1; i >= 0; i-- {
+				r = mkImp(ante[i], r)
+			}
+			out = append(out, r)
+		}
+	}
+	rec(nil, g)
+	if len(out) == 0 || len(out) > max {
+		return []*Term{g}
+	}
+	return out
 }
 
 // ---------- running a function ----------
